@@ -129,7 +129,33 @@ def gen_sp_program2(rng):
     return prog
 
 
+def gen_sp_program3(rng):
+    """retry patterns: an entity that already has a version object in this transaction (or only an older version) is
+    changed and flushed inside a savepoint, the savepoint is rolled back, and the entity is changed again - to the SAME
+    value (a retry) or to another one - before the commit"""
+    prog = [['add', 0, 1, {'a': 1}], ['add', 0, 2, {'a': 1}], ['add', 1, 1, {'a': 0}], ['commit']]
+    val = 10
+    for rnd in range(rng.randint(1, 3)):
+        e = rng.choice([1, 2])
+        val += 3
+        if rng.random() < 0.5:
+            prog += [['set', 0, e, {'a': val}], ['flush']]              # E is versioned in this transaction already
+        else:
+            prog += [['set', 1, 1, {'a': val}], ['flush']]              # the transaction has a record, E only older versions
+        prog += [['sp_begin'], ['set', 0, e, {'a': val + 1}], ['flush']]
+        if rng.random() < 0.3:
+            prog += [['set', 0, e, {'b': val}], ['flush']]
+        prog.append(['sp_rollback'])
+        prog.append(['set', 0, e, {'a': val + 1 if rng.random() < 0.6 else val + 2}])
+        if rng.random() < 0.5:
+            prog.append(['flush'])
+        prog.append(['commit'])
+    return prog
+
+
 def gen_sp_program(rng):
+    if rng.random() < 0.3:
+        return gen_sp_program3(rng)
     if rng.random() < 0.5:
         return gen_sp_program2(rng)
     prog = [['add', 0, 1, {'a': 1}], ['add', 3, 1, {'a': 0}], ['commit']]
@@ -176,6 +202,16 @@ def corpus():
                                           ['sp_rollback'], ['set', 0, 1, {'a': 3}], ['commit']]),
             dict(kind='S', cfg=cfg, prog=[['add', 0, 1, {'a': 1}], ['add', 3, 1, {'a': 0}], ['commit'], ['sp_begin'],
                                           ['set', 3, 1, {'a': 2}], ['flush'], ['sp_rollback'], ['set', 0, 1, {'a': 3}], ['commit']]),
+            # retry after a savepoint rollback: the same value again, for an entity versioned earlier in the transaction ...
+            dict(kind='S', cfg=cfg, prog=[['add', 0, 1, {'a': 1}], ['commit'], ['set', 0, 1, {'a': 2}], ['flush'], ['sp_begin'],
+                                          ['set', 0, 1, {'a': 3}], ['flush'], ['sp_rollback'], ['set', 0, 1, {'a': 3}], ['commit']]),
+            dict(kind='S', cfg=dict(cfg, strategy='subquery'),
+                 prog=[['add', 0, 1, {'a': 1}], ['commit'], ['set', 0, 1, {'a': 2}], ['flush'], ['sp_begin'],
+                       ['set', 0, 1, {'a': 3}], ['flush'], ['sp_rollback'], ['set', 0, 1, {'a': 3}], ['commit']]),
+            # ... and for an entity that has only an older version: its predecessor has to be closed again
+            dict(kind='S', cfg=cfg, prog=[['add', 0, 1, {'a': 1}], ['add', 1, 1, {'a': 0}], ['commit'], ['set', 1, 1, {'a': 2}], ['flush'],
+                                          ['sp_begin'], ['set', 0, 1, {'a': 3}], ['flush'], ['sp_rollback'], ['set', 0, 1, {'a': 4}],
+                                          ['commit']]),
             # a flush failing inside a savepoint after a versioned INSERT went through (F-C06-failed-flush-in-savepoint)
             dict(kind='S', cfg=cfg, prog=[['add', 0, 1, {'a': 1}], ['add', 3, 1, {'a': 0}], ['commit'], ['set', 0, 1, {'a': 2}],
                                           ['flush'], ['sp_begin'], ['sp_fail', 7, 1], ['set', 0, 1, {'a': 3}], ['commit']]),
